@@ -94,6 +94,11 @@ chk('C15', 'TLA+ heap of message objects (MsgHeap) with Isolation / FrozenNeverC
     'Value domain {1, 2, one out-of-range value} per class.',
     'DESIGN.md 5/C15')
 
+chk('C14', 'TLA+ token-level grammar of message text with a total Parse and the documented Render, and a fold model of parse_string_stream (MsgText), enumerated by TLC; rows replayed on parse_string / from_str / parse_string_stream; round-trip relations evaluated on specification-generated objects',
+    'TLC enumerates 7 type words x all lists of <= 2 distinct tokens from 22 (valid values, out-of-range, non-numbers, missing "=", unknown attribute, data with missing parentheses / bad items / no parentheses) with the Parse verdict; the documented format of every valid boundary state of all 18 types with Parse(Render(m)) = m; and every stream of <= 3 (thorough 4) lines over 12 line classes (valid, with comment, blank, comment only, whitespace only, unknown type, missing "=", bad number, unknown attribute, bad data syntax, out of range, indented) with the expected (message | None + line number) sequence. Rows are replayed on the real functions (ValueError required for every invalid text). from_str(str(m)), from_dict(m.dict()), eval(repr(m)) are evaluated on the WireMsgs message domain x 8 time tokens (int, negative, float, 1e-05, 10**30), eval(repr(x)) on the MetaCheck meta-message domain and on the tracks (length 0, 1, 2+) and files of SmfFiles.',
+    'Relations over real objects are evaluated by the driver; MidiFile compared structurally; duplicated attributes not generated.',
+    'DESIGN.md 5/C14')
+
 
 def build(not_applicable):
     checks = []
